@@ -31,7 +31,7 @@ def run_obs_job(pid, env, spec, entry, catmod, expect_raise=None):
     job = Job(pid, env, spec, entry, catalogue_module=catmod)
     job.cfg["want_ref"] = False
     twin_done = False
-    for t in job.explore():
+    for t in job.explore(compare_result=False):
         pi = t.extra["idx"]
         facts = t.path.facts()
         if not t.path.ok:
